@@ -56,7 +56,8 @@ def runs_of(stream, sizes):
             for mi in range(1, len(msgs) + 1):
                 src = msgs[mi - 1]
                 # candidate offsets: message start, or aligned group found by the 4-byte marker
-                if src[:1] and stream[pos] == src[0] and (stream[pos:pos + 4] == src[:4] or len(src) < 4):
+                tail = stream[pos:pos + 4]
+                if src[:1] and stream[pos] == src[0] and (tail == src[:len(tail)] or len(src) < 4):
                     found = (mi, 0)
                     break
             if found is None and pos + 4 <= n and 0xA1 <= stream[pos] <= 0xA0 + len(msgs):
@@ -140,7 +141,11 @@ def run_one(it):
                             okk = False
                             break
                 else:
-                    okk = bool(conn.send_data(data))
+                    try:
+                        okk = bool(conn.send_data(data))
+                    except Exception as exc:  # noqa: BLE001   (an exception is not a report of success)
+                        okk = False
+                        rec["send_exception"] = type(exc).__name__
                 rec["sends"].append({"size": size, "ok": okk})
             done["v"] = True
 
@@ -150,6 +155,13 @@ def run_one(it):
         guard = 0
         while guard < 200000:
             guard += 1
+            if it.get("then") == "disable_blocked":
+                # the peer reads nothing: the sender fills the socket and blocks (or finishes, if everything fits); then the
+                # application disables the connection while the send is still in progress
+                s.settle()
+                s.advance(0.3)
+                rec["blocked_at_disable"] = not done["v"]
+                break
             if done["v"] and it.get("then") == "close":
                 break                  # the application closes at once; what is in flight is read afterwards, until EOF
             if it["pace"] == "immediate":
@@ -186,6 +198,9 @@ def run_one(it):
         t2.start()
         s.run_until(lambda: dn["v"], max_dt=30)
         rec["disable_returned"] = dn["v"]
+        if it.get("then") == "disable_blocked":
+            s.run_until(lambda: done["v"], max_dt=30)
+            rec["done"] = done["v"] or bool(rec.get("send_exception"))
         while peer.rx:                 # the raw peer reads until EOF
             stream += peer.read(rng.choice([1, 10, 1000, 1 << 20]))
         rec["received"] = runs_of(bytes(stream), it["sizes"])
@@ -206,14 +221,14 @@ def run_one(it):
 def run(ctx: Ctx):
     wd = workdir(PID)
 
-    def cfg(ign, k, sz, abort="FALSE"):
-        return (f"SPECIFICATION Spec\nCONSTANTS ShortWriteIgnored = {ign}\n AbortiveClose = {abort}\n K = {k}\n SZ = {sz}\nINVARIANT AcceptedMeansOnStream\n"
+    def cfg(ign, k, sz, abort="FALSE", stopok="FALSE"):
+        return (f"SPECIFICATION Spec\nCONSTANTS ShortWriteIgnored = {ign}\n AbortiveClose = {abort}\n StopReportsSuccess = {stopok}\n K = {k}\n SZ = {sz}\nINVARIANT AcceptedMeansOnStream\n"
                 "INVARIANT InOrderNoDup\nPROPERTY EverythingArrives\n")
 
     for k, sz in ((3, 1), (2, 3), (4, 1)) if not ctx.quick else ((3, 1), (2, 3)):
         r = tlc.run("TcpSend", cfg_text=cfg("FALSE", k, sz), workdir=wd, what=f"send_k{k}_s{sz}", timeout=900)
         tlc.require_ok(r, "TcpSend")
-        tlc.require_covered(r, ["Send", "Drain", "Reset", "SendFails", "Close"])
+        tlc.require_covered(r, ["Send", "Drain", "Reset", "SendFails", "Close", "Stop", "SendStopped"])
         ctx.add_tlc(r, f"send loop on remaining bytes, K={k}, sizes #{sz}: all short-write / drain / reset interleavings")
     rw = tlc.run("TcpSend", cfg_text=cfg("TRUE", 3, 1), workdir=wd, what="send_ignored", timeout=900, expect_error=True)
     ctx.add_tlc(rw, "regression witness: return value of send ignored -> TLC refutes AcceptedMeansOnStream")
@@ -223,6 +238,10 @@ def run(ctx: Ctx):
     ctx.add_tlc(rw2, "witness: abortive close after the last send -> TLC refutes AcceptedMeansOnStream")
     if rw2.error_kind != "invariant":
         raise Machinery("TcpSend abortive-close witness no longer fails")
+    rw3 = tlc.run("TcpSend", cfg_text=cfg("FALSE", 3, 1, "FALSE", "TRUE"), workdir=wd, what="stop_reports_success", timeout=900, expect_error=True)
+    ctx.add_tlc(rw3, "witness: a send interrupted by disable() reports success -> TLC refutes AcceptedMeansOnStream")
+    if rw3.error_kind != "invariant":
+        raise Machinery("TcpSend stop-reports-success witness no longer fails")
     rng = random.Random(ctx.seed + 10)
     items = []
     tid = 0
@@ -243,8 +262,10 @@ def run(ctx: Ctx):
                     for short in ("none", "half", "rand"):
                         if ctx.quick and short == "half" and pace != "immediate":
                             continue
-                        for then in ("drain", "close"):
+                        for then in ("drain", "close", "disable_blocked"):
                             if then == "close" and (short == "half" or (ctx.quick and pace == "byte" and cap > 7)):
+                                continue
+                            if then == "disable_blocked" and (pace != "immediate" or short == "half" or max(sizes) <= cap):
                                 continue
                             tid += 1
                             items.append({"id": tid, "side": side, "cap": cap, "sizes": [max(1, x) for x in sizes], "pace": pace, "short": short,
@@ -286,7 +307,8 @@ def run(ctx: Ctx):
                            "what": f"{r_['side']}: disable() after the transfer did not return"})
     ctx.rule = ("scenarios = {server, client} x buffer capacity {1, 7, 4 KiB, 64 KiB} x message sizes {1, cap-1, cap, cap+1, 3*cap+2, "
                 "1 MiB +-1, 3 MiB} x reader pacing {immediate, delayed, small reads} x short-write policy {none, half, random} x "
-                "{peer drains while the connection stays up, disable() right after the last send and the peer reads until EOF}; "
+                "{peer drains while the connection stays up, disable() right after the last send and the peer reads until EOF, "
+                "disable() while a send is blocked on a full socket (peer not reading) and the peer reads until EOF afterwards}; "
                 "non-trivial = distinct scenarios")
     ctx.assumptions += ["kernel TCP behaviour is the simulated socket layer (non-blocking send accepts 1..free bytes or raises EWOULDBLOCK)"]
     return ctx.finish()
